@@ -32,6 +32,7 @@ class OpsImpl final : public ArchiveOps
 			case K::Str32: f(r.s32); return;
 			case K::WStr: f(r.ws); return;
 			case K::Bin: f(r.bin); return;
+			case K::Ts: f(r.tp); return;
 			default: break;
 			}
 		}
@@ -60,6 +61,15 @@ public:
 			else BitSerializer::LoadObject<TArchive>(v, *in.stream, o);
 		});
 	}
+	void LoadIntVector(std::vector<int32_t>& v, const BitSerializer::SerializationOptions& o, IoIn in) override
+	{
+		if constexpr (TArchive::archive_type != BitSerializer::ArchiveType::Csv)
+		{
+			if (in.mem) BitSerializer::LoadObject<TArchive>(v, *in.mem, o);
+			else BitSerializer::LoadObject<TArchive>(v, *in.stream, o);
+		}
+		else throw std::logic_error("harness: CSV cannot hold an array of numbers at the root");
+	}
 	void SaveZoo(Zoo& z, const BitSerializer::SerializationOptions& o, IoOut out) override
 	{
 		if constexpr (TreeZoo)
@@ -69,8 +79,12 @@ public:
 		}
 		else
 		{
-			if (out.mem) BitSerializer::SaveObject<TArchive>(z.rows, *out.mem, o);
-			else BitSerializer::SaveObject<TArchive>(z.rows, *out.stream, o);
+			auto save = [&](auto& rows)
+			{
+				if (out.mem) BitSerializer::SaveObject<TArchive>(rows, *out.mem, o);
+				else BitSerializer::SaveObject<TArchive>(rows, *out.stream, o);
+			};
+			switch (z.csvRoot) { case 1: save(z.rowsList); break; case 2: save(z.rowsDeque); break; case 3: save(z.rowsFwd); break; default: save(z.rows); }
 		}
 	}
 	void LoadZoo(Zoo& z, const BitSerializer::SerializationOptions& o, IoIn in) override
@@ -82,8 +96,12 @@ public:
 		}
 		else
 		{
-			if (in.mem) BitSerializer::LoadObject<TArchive>(z.rows, *in.mem, o);
-			else BitSerializer::LoadObject<TArchive>(z.rows, *in.stream, o);
+			auto load = [&](auto& rows)
+			{
+				if (in.mem) BitSerializer::LoadObject<TArchive>(rows, *in.mem, o);
+				else BitSerializer::LoadObject<TArchive>(rows, *in.stream, o);
+			};
+			switch (z.csvRoot) { case 1: load(z.rowsList); break; case 2: load(z.rowsDeque); break; case 3: load(z.rowsFwd); break; default: load(z.rows); }
 		}
 	}
 };
